@@ -49,10 +49,12 @@ Definition is_library (e: err) : bool :=
   | EUnderrun | EEndOfStream | EMalformed | EConstraint | EUnicode | EUnsupported => true
   | _ => false end.
 
-Fixpoint list_eqb {A} (eqb: A -> A -> bool) (x y: list A) : bool :=
+(* [eqb] is bound outside the fix so that nested recursive definitions may pass themselves *)
+Definition list_eqb {A} (eqb: A -> A -> bool) : list A -> list A -> bool :=
+  fix go (x y: list A) : bool :=
   match x, y with
   | [], [] => true
-  | a :: x', b :: y' => eqb a b && list_eqb eqb x' y'
+  | a :: x', b :: y' => eqb a b && go x' y'
   | _, _ => false end.
 
 Definition bytes_eqb : bytes -> bytes -> bool := list_eqb N.eqb.
@@ -70,3 +72,9 @@ Fixpoint unseg (l: list seg) : bytes :=
 Fixpoint failing_from (i: nat) (l: list bool) : list nat :=
   match l with [] => [] | b :: r => if b then failing_from (S i) r else i :: failing_from (S i) r end.
 Definition failing (l: list bool) : list nat := failing_from 0 l.
+
+(* three-valued outcomes of a correspondence case: 0 = agree, 1 = disagree, 2 = model declines *)
+Fixpoint nonzero_from (i: nat) (l: list N) : list (nat * N) :=
+  match l with [] => [] | 0%N :: r => nonzero_from (S i) r | c :: r => (i, c) :: nonzero_from (S i) r end.
+Definition nonzero (l: list N) : list (nat * N) := nonzero_from 0 l.
+Definition code_of_bool (b: bool) : N := if b then 0%N else 1%N.
